@@ -347,4 +347,66 @@ theorem exportSocket_only {ctx : Ctx} (si : Nat) : ∀ (names : List Str) (g g' 
                 · right; rw [h'']; exact List.mem_cons_self ..
               · exact Or.inr (List.mem_cons_of_mem _ h')
 
+/-! ### indices found in the graph are indices of the package definitions -/
+
+/-- the export index found at an instantiation of `p` is the index in `p`'s export list -/
+theorem aliasIdx_pkgExports {ctx : Ctx} {g' : Graph} (hinv' : Inv ctx g') {pi : Nat} {p : PkgId} {plugD : PkgDef}
+    {name : Str} {j : Nat} (hpi : InstOf g' pi p) (hpd : g'.pkgOf p = .ok plugD) (hai : AliasIdx ctx g' pi name j) :
+    ∃ k, alFull (ctx.pkgExports plugD) name = some (j, k) := by
+  obtain ⟨x, exps, k, hx, hexps, hfull⟩ := hai
+  obtain ⟨x', hx', hinst, hpkg⟩ := hpi
+  rw [hx] at hx'
+  cases hx'
+  have hitem : x.item = plugD.instKind := by
+    have h2 := (hinv'.node hx).2.1
+    unfold Node.isInst at hinst
+    cases hk : x.kind with
+    | instantiation sat =>
+      rw [hk] at h2
+      simp only at h2
+      obtain ⟨_, _, pid, hpid, pd, hpd', hit⟩ := h2
+      rw [Option.mem_def, hpkg] at hpid
+      cases hpid
+      have := toOption_mem.mp hpd'
+      rw [hpd] at this
+      cases this
+      exact hit
+    | definition ty => simp [hk] at hinst
+    | «import» nm => simp [hk] at hinst
+    | «alias» => simp [hk] at hinst
+  have hpe : ctx.pkgExports plugD = exps := by
+    unfold Ctx.pkgExports
+    rw [← hitem, hexps]; rfl
+  exact ⟨k, by rw [hpe]; exact hfull⟩
+
+/-- the import index found at an instantiation of the socket is the index in its import list -/
+theorem argIdx_imports {g' : Graph} {si : Nat} {socket : PkgId} {socketD : PkgDef} {name : Str} {idx : Nat}
+    (hsi : InstOf g' si socket) (hs : g'.pkgOf socket = .ok socketD) (ha : ArgIdx g' si name idx) :
+    ∃ k', alFull socketD.imports name = some (idx, k') := by
+  obtain ⟨y, pid, d, k', hy, hypkg, hd, hfull'⟩ := ha
+  obtain ⟨y', hy', _, hpkg'⟩ := hsi
+  rw [hy] at hy'
+  cases hy'
+  rw [hpkg'] at hypkg
+  cases hypkg
+  have := pkgAt_of_pkgOf hs
+  rw [this] at hd
+  cases hd
+  exact ⟨k', hfull'⟩
+
+theorem mem_zip_range {α : Type} (l : List α) {i : Nat} {x : α} (h : l[i]? = some x) :
+    (i, x) ∈ (List.range l.length).zip l := by
+  have hlt : i < l.length := by
+    rcases Nat.lt_or_ge i l.length with hl | hl
+    · exact hl
+    · rw [List.getElem?_eq_none hl] at h; cases h
+  rw [List.mem_iff_getElem]
+  refine ⟨i, by simp [hlt], ?_⟩
+  have hx : l[i] = x := by
+    have := List.getElem?_eq_getElem hlt
+    rw [this] at h
+    exact Option.some.inj h
+  simp [hx]
+
+
 end Wac.Graph
